@@ -597,7 +597,7 @@ Lemma body_merge P (yaml : bool) o m1 :
   lexical_ok P ->
   let b := if yaml then yaml_body P o else json_body P o in
   match bt_text b with
-  | EmptyString => Panic "index out of range [0] with length 0"
+  | EmptyString => Err "empty body"
   | String _ _ =>
       if starts_brace (bt_text b) then
         match bt_json b with Some o => Ok (merge m1 o) | None => Err "json" end
@@ -1069,83 +1069,42 @@ Proof.
   change (String.eqb "requests" "requests") with true. cbv iota.
   rewrite Hb. reflexivity.
 Qed.
-(** * ServeHTTP panics only on three input classes *)
+(** * ServeHTTP never panics *)
 
-Lemma parse_parameter_panic p t w :
-  parse_parameter svc_parameter_types p t = Panic w -> typed_json p = true /\ pt_text t = "".
+Lemma parse_parameter_no_panic p t w : parse_parameter svc_parameter_types p t <> Panic w.
 Proof.
-  unfold parse_parameter, typed_json. destruct (alookup p svc_parameter_types) as [typ|]; [|discriminate].
+  unfold parse_parameter. destruct (alookup p svc_parameter_types) as [typ|]; [|discriminate].
   destruct (String.eqb typ "json").
-  - unfold unmarshal. destruct (pt_text t) as [|c s]; [intros _; split; reflexivity|].
+  - unfold unmarshal. destruct (pt_text t) as [|c s]; [discriminate|].
     destruct (starts_brace (String c s)); [destruct (pt_json t); discriminate|].
     destruct (has_newline (String c s)); [destruct (pt_yaml t); discriminate|discriminate].
   - destruct (String.eqb typ "int"); [destruct (pt_int t); discriminate|discriminate].
 Qed.
 
-Lemma parse_pairs_panic all l : forall m w,
-  parse_pairs svc_parameter_types all l m = Panic w -> has_empty_typed (Some l) = true.
+Lemma parse_pairs_no_panic all l : forall m w, parse_pairs svc_parameter_types all l m <> Panic w.
 Proof.
-  induction l as [|[p t] r IH]; intros m w H; cbn [parse_pairs] in H; [discriminate|].
-  cbn [has_empty_typed existsb fst snd].
+  induction l as [|[p t] r IH]; intros m w; cbn [parse_pairs]; [discriminate|].
   destruct (Nat.eqb (count_name p all) 1); [|discriminate].
   destruct (parse_parameter svc_parameter_types p t) as [v|e|w'|] eqn:E; try discriminate.
-  - apply IH in H. cbn [has_empty_typed] in H. rewrite H. apply orb_true_r.
-  - apply parse_parameter_panic in E. destruct E as [E1 E2]. rewrite E1, E2. reflexivity.
+  - apply IH.
+  - exfalso. exact (parse_parameter_no_panic _ _ _ E).
 Qed.
 
-Definition not_arr (j : json) : Prop := match j with JArr _ => False | _ => True end.
-
-Lemma parse_parameter_not_arr p t v : parse_parameter svc_parameter_types p t = Ok v -> not_arr v.
+Lemma get_no_panic rq w : get_http_request svc_parameter_types rq <> Panic w.
 Proof.
-  unfold parse_parameter. destruct (alookup p svc_parameter_types) as [typ|]; [|intros H; inversion H; exact I].
-  destruct (String.eqb typ "json").
-  - destruct (unmarshal _ _ _); try discriminate. intros H; inversion H; exact I.
-  - destruct (String.eqb typ "int"); [|discriminate]. destruct (pt_int t); [|discriminate]. intros H; inversion H; exact I.
-Qed.
-
-Lemma parse_pairs_arr all l : forall m m' n xs,
-  parse_pairs svc_parameter_types all l m = Ok m' ->
-  alookup n m' = Some (JArr xs) -> alookup n m = Some (JArr xs).
-Proof.
-  induction l as [|[p t] r IH]; intros m m' n xs H Hl; cbn [parse_pairs] in H.
-  - inversion H; subst. exact Hl.
-  - destruct (Nat.eqb (count_name p all) 1); [|discriminate].
-    destruct (parse_parameter svc_parameter_types p t) as [v| | |] eqn:E; try discriminate.
-    specialize (IH _ _ _ _ H Hl). rewrite alookup_ainsert in IH.
-    destruct (String.eqb n p); [|exact IH].
-    inversion IH; subst. apply parse_parameter_not_arr in E. destruct E.
-Qed.
-
-Definition str_entry (m : params) : Prop := exists s, alookup "uri" m = Some (JStr s).
-
-Lemma parse_pairs_uri all l : forall m m',
-  parse_pairs svc_parameter_types all l m = Ok m' -> str_entry m -> str_entry m'.
-Proof.
-  induction l as [|[p t] r IH]; intros m m' H Hs; cbn [parse_pairs] in H.
-  - inversion H; subst. exact Hs.
-  - destruct (Nat.eqb (count_name p all) 1); [|discriminate].
-    destruct (parse_parameter svc_parameter_types p t) as [v| | |] eqn:E; try discriminate.
-    apply (IH _ _ H). unfold str_entry. rewrite alookup_ainsert.
-    destruct (String.eqb_spec "uri" p) as [<-|Hne]; [|exact Hs].
-    unfold parse_parameter in E. change (alookup "uri" svc_parameter_types) with (@None string) in E.
-    inversion E. eexists; reflexivity.
-Qed.
-
-Lemma merge_cases o : forall m n,
-  alookup n (merge m o) = alookup n m \/ exists j, alookup n (merge m o) = Some j /\ In (n, j) o.
-Proof.
-  induction o as [|[k v] o IH]; intros m n; [left; reflexivity|].
-  change (merge m ((k, v) :: o)) with (merge (ainsert k v m) o).
-  destruct (IH (ainsert k v m) n) as [H|(j & H & Hin)].
-  - rewrite H, alookup_ainsert. destruct (String.eqb_spec n k) as [->|Hne]; [|left; reflexivity].
-    right. exists v. split; [reflexivity|left; reflexivity].
-  - right. exists j. split; [exact H|right; exact Hin].
-Qed.
-
-Lemma nonstring_of_in (o : obj) j : In ("uri", j) o -> is_jstr j = false -> nonstring_uri (Some o) = true.
-Proof.
-  intros Hin Hj. cbn [nonstring_uri]. apply existsb_exists. exists ("uri", j). split; [exact Hin|].
-  cbn [fst snd]. rewrite Hj. reflexivity.
+  unfold get_http_request. destruct (rq_query rq) as [l|]; [|discriminate].
+  destruct (parse_pairs svc_parameter_types l l []) as [m0|e|w0|] eqn:Ep; try discriminate.
+  - destruct (_ || _).
+    + destruct (is_post rq); [|discriminate].
+      destruct (if String.eqb (dwim_uri (rq_path rq)) "/api/json" then bt_json (rq_body rq) else bt_yaml (rq_body rq));
+        [|discriminate].
+      destruct (alookup "uri" _) as [[]|]; discriminate.
+    + destruct (is_post rq); [|discriminate].
+      destruct (bt_text (rq_body rq)) as [|c s]; [discriminate|].
+      destruct (starts_brace (String c s)); [destruct (bt_json (rq_body rq)); discriminate|].
+      destruct (has_newline (String c s)); [destruct (bt_yaml (rq_body rq)); discriminate|].
+      destruct (bt_form (rq_body rq)) as [fl|]; [|discriminate]. apply parse_pairs_no_panic.
+  - exfalso. exact (parse_pairs_no_panic _ _ _ _ Ep).
 Qed.
 
 (** dispatch never panics *)
@@ -1194,186 +1153,114 @@ Proof.
   destruct (mem_str uri svc_process_uris); discriminate.
 Qed.
 
-Lemma batch_elems_panic xs w :
-  batch_elems xs = Panic w ->
-  existsb (fun x => match x with JObj e => nonstring_uri (Some e) | _ => false end) xs = true.
+Lemma batch_elems_no_panic xs w : batch_elems xs <> Panic w.
 Proof.
-  induction xs as [|x xs IH]; cbn [batch_elems existsb]; [discriminate|].
-  destruct x as [| | | | |o]; try (destruct (batch_elems xs); try discriminate; intros H; rewrite (IH H); reflexivity).
-  destruct (alookup "uri" o) as [j|] eqn:Eu.
-  - pose proof (alookup_In _ _ _ Eu) as Hin.
-    destruct (is_jstr j) eqn:Ej.
-    + destruct j as [| | |s| |]; try discriminate.
-      destruct (dispatch (dwim_uri s) o) eqn:Ed; try discriminate.
-      * destruct (batch_elems xs); try discriminate. intros H. rewrite (IH H). apply orb_true_r.
-      * destruct (batch_elems xs); try discriminate. intros H. rewrite (IH H). apply orb_true_r.
-      * exfalso. exact (dispatch_no_panic _ _ _ Ed).
-    + intros _. apply orb_true_iff. left. exact (nonstring_of_in o j Hin Ej).
-  - destruct (batch_elems xs); try discriminate. intros H. rewrite (IH H). apply orb_true_r.
+  induction xs as [|x xs IH]; cbn [batch_elems]; [discriminate|].
+  destruct x as [| | | | |o]; try (destruct (batch_elems xs); try discriminate; exact IH).
+  destruct (alookup "uri" o) as [j|].
+  - destruct j as [| | |s| |]; try (destruct (batch_elems xs); try discriminate; exact IH).
+    destruct (dispatch (dwim_uri s) o) eqn:Ed; try discriminate;
+      try (destruct (batch_elems xs); try discriminate; exact IH).
+    exfalso. exact (dispatch_no_panic _ _ _ Ed).
+  - destruct (batch_elems xs); try discriminate; exact IH.
 Qed.
 
-Lemma form_sniffed_intro rq c s :
-  is_post rq = true -> is_envelope rq = false -> bt_text (rq_body rq) = String c s ->
-  starts_brace (String c s) = false -> has_newline (String c s) = false -> form_sniffed rq = true.
-Proof.
-  intros Hp He Ht Hb Hn. unfold form_sniffed. rewrite Hp, He, Ht, Hb, Hn. reflexivity.
-Qed.
-
-Lemma get_panic rq w :
-  get_http_request svc_parameter_types rq = Panic w -> in_D24 rq = true \/ in_D61 rq = true.
-Proof.
-  unfold get_http_request. destruct (rq_query rq) as [l|] eqn:Eq; [|discriminate].
-  destruct (parse_pairs svc_parameter_types l l []) as [m0|e|w0|] eqn:Ep; try discriminate.
-  - fold (is_envelope rq). destruct (is_envelope rq) eqn:Ee.
-    + destruct (is_post rq); [|discriminate].
-      destruct (if String.eqb (dwim_uri (rq_path rq)) "/api/json" then bt_json (rq_body rq) else bt_yaml (rq_body rq));
-        [|discriminate].
-      destruct (alookup "uri" _) as [[]|]; discriminate.
-    + destruct (is_post rq) eqn:Epost; [|discriminate].
-      destruct (bt_text (rq_body rq)) as [|c s] eqn:Et.
-      * intros _. left. unfold in_D24. rewrite Epost, Ee, Et. reflexivity.
-      * destruct (starts_brace (String c s)) eqn:Eb; [destruct (bt_json (rq_body rq)); discriminate|].
-        destruct (has_newline (String c s)) eqn:En; [destruct (bt_yaml (rq_body rq)); discriminate|].
-        destruct (bt_form (rq_body rq)) as [fl|] eqn:Ef; [|discriminate].
-        intros H. right. unfold in_D61. rewrite Ef in *.
-        rewrite (form_sniffed_intro rq c s Epost Ee Et Eb En), (parse_pairs_panic _ _ _ _ H).
-        apply orb_true_r.
-  - intros _. right. unfold in_D61. rewrite Eq, (parse_pairs_panic _ _ _ _ Ep). reflexivity.
-Qed.
-
-Lemma query_no_arr l m0 n xs :
-  parse_pairs svc_parameter_types l l [] = Ok m0 -> alookup n m0 <> Some (JArr xs).
-Proof. intros H Hl. apply (parse_pairs_arr _ _ _ _ _ _ H) in Hl. discriminate. Qed.
-
-Lemma uri_insert_no_arr path m0 n xs :
-  (forall xs, alookup n m0 <> Some (JArr xs)) -> alookup n (ainsert "uri" (JStr path) m0) <> Some (JArr xs).
-Proof.
-  intros H. rewrite alookup_ainsert. destruct (String.eqb n "uri"); [discriminate|apply H].
-Qed.
-
-Lemma get_uri rq m :
-  get_http_request svc_parameter_types rq = Ok m -> str_entry m \/ in_D25 rq = true.
-Proof.
-  unfold get_http_request. destruct (rq_query rq) as [l|] eqn:Eq; [|discriminate].
-  destruct (parse_pairs svc_parameter_types l l []) as [m0|e|w0|] eqn:Ep; try discriminate.
-  fold (is_envelope rq). destruct (is_envelope rq) eqn:Ee.
-  - destruct (is_post rq); [|discriminate].
-    destruct (if String.eqb (dwim_uri (rq_path rq)) "/api/json" then bt_json (rq_body rq) else bt_yaml (rq_body rq)) as [o|];
-      [|discriminate].
-    destruct (alookup "uri" (merge m0 o)) as [[| | |s| |]|] eqn:Eu; try discriminate.
-    intros H. inversion H; subst. left. exists s. exact Eu.
-  - set (m1 := ainsert "uri" (JStr (rq_path rq)) m0).
-    assert (H1 : str_entry m1) by (eexists; apply alookup_ainsert_same).
-    destruct (is_post rq) eqn:Epost; [|intros H; inversion H; subst; left; exact H1].
-    destruct (bt_text (rq_body rq)) as [|c s] eqn:Et; [discriminate|].
-    assert (Hmerge : forall o, str_entry (merge m1 o) \/ nonstring_uri (Some o) = true).
-    { intros o. destruct (merge_cases o m1 "uri") as [Hm|(j & Hm & Hin)].
-      - left. destruct H1 as [s' H1]. exists s'. rewrite Hm. exact H1.
-      - destruct (is_jstr j) eqn:Ej.
-        + left. destruct j; try discriminate. eexists; exact Hm.
-        + right. eapply nonstring_of_in; eassumption. }
-    destruct (starts_brace (String c s)) eqn:Eb.
-    + destruct (bt_json (rq_body rq)) as [o|] eqn:Ej; [|discriminate].
-      intros H. inversion H; subst. destruct (Hmerge o) as [Hs|Hn]; [left; exact Hs|right].
-      unfold in_D25. rewrite Epost, Ee, Et, Eb, Ej, Hn. reflexivity.
-    + destruct (has_newline (String c s)) eqn:En.
-      * destruct (bt_yaml (rq_body rq)) as [o|] eqn:Ey; [|discriminate].
-        intros H. inversion H; subst. destruct (Hmerge o) as [Hs|Hn]; [left; exact Hs|right].
-        unfold in_D25. rewrite Epost, Ee, Et, Eb, En, Ey, Hn. cbn. reflexivity.
-      * destruct (bt_form (rq_body rq)) as [fl|]; [|discriminate].
-        intros H. left. eapply parse_pairs_uri; eassumption.
-Qed.
-
-Lemma get_arrays rq m n xs :
-  get_http_request svc_parameter_types rq = Ok m -> alookup n m = Some (JArr xs) ->
-  is_post rq = true /\
-  ((exists o, bt_json (rq_body rq) = Some o /\ In (n, JArr xs) o) \/
-   (exists o, bt_yaml (rq_body rq) = Some o /\ In (n, JArr xs) o)).
-Proof.
-  unfold get_http_request. destruct (rq_query rq) as [l|] eqn:Eq; [|discriminate].
-  destruct (parse_pairs svc_parameter_types l l []) as [m0|e|w0|] eqn:Ep; try discriminate.
-  pose proof (fun n xs => query_no_arr l m0 n xs Ep) as Hq.
-  destruct (String.eqb (dwim_uri (rq_path rq)) "/api/json" || String.eqb (dwim_uri (rq_path rq)) "/api/yaml").
-  - destruct (is_post rq); [|discriminate].
-    destruct (String.eqb (dwim_uri (rq_path rq)) "/api/json").
-    + destruct (bt_json (rq_body rq)) as [o|] eqn:Ej; [|discriminate].
-      destruct (alookup "uri" (merge m0 o)) as [[]|]; try discriminate.
-      intros H Hl. inversion H; subst. split; [reflexivity|left]. exists o. split; [reflexivity|].
-      destruct (merge_cases o m0 n) as [Hm|(j & Hm & Hin)].
-      * rewrite Hm in Hl. exfalso. exact (Hq _ _ Hl).
-      * rewrite Hl in Hm. inversion Hm; subst. exact Hin.
-    + destruct (bt_yaml (rq_body rq)) as [o|] eqn:Ey; [|discriminate].
-      destruct (alookup "uri" (merge m0 o)) as [[]|]; try discriminate.
-      intros H Hl. inversion H; subst. split; [reflexivity|right]. exists o. split; [reflexivity|].
-      destruct (merge_cases o m0 n) as [Hm|(j & Hm & Hin)].
-      * rewrite Hm in Hl. exfalso. exact (Hq _ _ Hl).
-      * rewrite Hl in Hm. inversion Hm; subst. exact Hin.
-  - set (m1 := ainsert "uri" (JStr (rq_path rq)) m0).
-    assert (H1 : forall n xs, alookup n m1 <> Some (JArr xs)).
-    { intros n' xs'. apply uri_insert_no_arr. intros xs''. apply Hq. }
-    destruct (is_post rq); [|intros H Hl; inversion H; subst; exfalso; exact (H1 _ _ Hl)].
-    destruct (bt_text (rq_body rq)) as [|c s]; [discriminate|].
-    destruct (starts_brace (String c s)).
-    + destruct (bt_json (rq_body rq)) as [o|] eqn:Ej; [|discriminate].
-      intros H Hl. inversion H; subst. split; [reflexivity|left]. exists o. split; [reflexivity|].
-      destruct (merge_cases o m1 n) as [Hm|(j & Hm & Hin)].
-      * rewrite Hm in Hl. exfalso. exact (H1 _ _ Hl).
-      * rewrite Hl in Hm. inversion Hm; subst. exact Hin.
-    + destruct (has_newline (String c s)).
-      * destruct (bt_yaml (rq_body rq)) as [o|] eqn:Ey; [|discriminate].
-        intros H Hl. inversion H; subst. split; [reflexivity|right]. exists o. split; [reflexivity|].
-        destruct (merge_cases o m1 n) as [Hm|(j & Hm & Hin)].
-        -- rewrite Hm in Hl. exfalso. exact (H1 _ _ Hl).
-        -- rewrite Hl in Hm. inversion Hm; subst. exact Hin.
-      * destruct (bt_form (rq_body rq)) as [fl|]; [|discriminate].
-        intros H Hl. exfalso. apply (parse_pairs_arr _ _ _ _ _ _ H) in Hl. exact (H1 _ _ Hl).
-Qed.
-
-Lemma batch_nonstring_intro (o : obj) xs :
-  In ("requests", JArr xs) o ->
-  existsb (fun x => match x with JObj e => nonstring_uri (Some e) | _ => false end) xs = true ->
-  batch_nonstring_uri (Some o) = true.
-Proof.
-  intros Hin Hx. cbn [batch_nonstring_uri]. apply existsb_exists. exists ("requests", JArr xs).
-  split; [exact Hin|]. cbn [fst snd jL]. rewrite Hx. reflexivity.
-Qed.
-
-Theorem serve_panics_only_on_known_classes : serve_panics_only_on_known_classes_statement.
+Theorem serve_never_panics : serve_never_panics_statement.
 Proof.
   intros rq w. unfold serve.
   destruct (get_http_request svc_parameter_types rq) as [m|e|w0|] eqn:Eg; try discriminate.
-  - destruct (get_uri rq m Eg) as [[s Hs]|H25]; [|intros _; right; left; exact H25].
-    unfold uri_of. rewrite Hs.
+  - unfold uri_of. destruct (alookup "uri" m) as [[| | |s| |]|] eqn:Eu; try discriminate.
     destruct (mem_str (dwim_uri s) svc_serve_uris); [discriminate|].
-    unfold process_request. rewrite Hs.
+    unfold process_request. rewrite Eu.
     destruct (String.eqb (dwim_uri s) "/api/sys/util/batch").
-    + destruct (alookup "requests" m) as [[| | | |xs|]|] eqn:Er; try discriminate.
+    + destruct (alookup "requests" m) as [[| | | |xs|]|]; try discriminate.
       destruct (batch_elems xs) eqn:Eb; try discriminate.
-      intros _. right; left.
-      apply batch_elems_panic in Eb.
-      destruct (get_arrays rq m _ _ Eg Er) as [Hp [(o & Ho & Hin)|(o & Ho & Hin)]].
-      * pose proof (batch_nonstring_intro o xs Hin Eb) as Hb. unfold in_D25. cbv zeta. rewrite Hp, Ho. rewrite Hb.
-        cbn [andb orb]. rewrite ?orb_true_r. reflexivity.
-      * pose proof (batch_nonstring_intro o xs Hin Eb) as Hb. unfold in_D25. cbv zeta. rewrite Hp, Ho. rewrite Hb.
-        cbn [andb orb]. rewrite ?orb_true_r. reflexivity.
+      exfalso. exact (batch_elems_no_panic _ _ Eb).
     + destruct (dispatch (dwim_uri s) m) eqn:Ed; try discriminate.
       exfalso. exact (dispatch_no_panic _ _ _ Ed).
-  - intros _. destruct (get_panic rq w0 Eg) as [H|H]; [left; exact H|right; right; exact H].
+  - exfalso. exact (get_no_panic _ _ Eg).
+Qed.
+
+Lemma parse_parameter_no_oof p t : parse_parameter svc_parameter_types p t <> OutOfFuel.
+Proof.
+  unfold parse_parameter. destruct (alookup p svc_parameter_types) as [typ|]; [|discriminate].
+  destruct (String.eqb typ "json").
+  - unfold unmarshal. destruct (pt_text t) as [|c s]; [discriminate|].
+    destruct (starts_brace (String c s)); [destruct (pt_json t); discriminate|].
+    destruct (has_newline (String c s)); [destruct (pt_yaml t); discriminate|discriminate].
+  - destruct (String.eqb typ "int"); [destruct (pt_int t); discriminate|discriminate].
+Qed.
+
+Lemma parse_pairs_no_oof all l : forall m, parse_pairs svc_parameter_types all l m <> OutOfFuel.
+Proof.
+  induction l as [|[p t] r IH]; intros m; cbn [parse_pairs]; [discriminate|].
+  destruct (Nat.eqb (count_name p all) 1); [|discriminate].
+  destruct (parse_parameter svc_parameter_types p t) as [v|e|w'|] eqn:E; try discriminate.
+  - apply IH.
+  - exfalso. exact (parse_parameter_no_oof _ _ E).
+Qed.
+
+Lemma parse_pairs_empty_typed all l : forall m,
+  has_empty_typed (Some l) = true -> exists e, parse_pairs svc_parameter_types all l m = Err e.
+Proof.
+  induction l as [|[p t] r IH]; intros m H; cbn [has_empty_typed existsb fst snd] in H; [discriminate|].
+  cbn [parse_pairs]. destruct (Nat.eqb (count_name p all) 1); [|eexists; reflexivity].
+  apply orb_prop in H. destruct H as [H|H].
+  - apply andb_prop in H. destruct H as [H1 H2]. apply String.eqb_eq in H2.
+    unfold parse_parameter, typed_json in *. destruct (alookup p svc_parameter_types) as [typ|]; [|discriminate].
+    rewrite H1, H2. cbn [unmarshal]. eexists; reflexivity.
+  - destruct (parse_parameter svc_parameter_types p t) as [v|e|w|] eqn:E.
+    + apply IH. exact H.
+    + eexists; reflexivity.
+    + exfalso. exact (parse_parameter_no_panic _ _ _ E).
+    + exfalso. exact (parse_parameter_no_oof _ _ E).
+Qed.
+
+Theorem empty_inputs_are_400 : empty_inputs_are_400_statement.
+Proof.
+  intros rq H. unfold serve.
+  assert (G : exists e, get_http_request svc_parameter_types rq = Err e).
+  { unfold get_http_request. destruct H as [H|H].
+    - unfold in_D24 in H. apply andb_prop in H. destruct H as [H Ht]. apply andb_prop in H. destruct H as [Hp He].
+      apply negb_true_iff in He. apply String.eqb_eq in Ht. unfold is_envelope in He.
+      destruct (rq_query rq) as [l|]; [|eexists; reflexivity].
+      destruct (parse_pairs svc_parameter_types l l []) as [m0|e|w0|] eqn:Ep.
+      + rewrite He, Hp, Ht. eexists; reflexivity.
+      + eexists; reflexivity.
+      + exfalso. exact (parse_pairs_no_panic _ _ _ _ Ep).
+      + exfalso. exact (parse_pairs_no_oof _ _ _ Ep).
+    - unfold in_D61 in H. apply orb_prop in H. destruct H as [H|H].
+      + destruct (rq_query rq) as [l|]; [|eexists; reflexivity].
+        destruct (parse_pairs_empty_typed l l [] H) as [e ->]. eexists; reflexivity.
+      + apply andb_prop in H. destruct H as [Hf H]. unfold form_sniffed in Hf.
+        apply andb_prop in Hf. destruct Hf as [Hf Hn]. apply andb_prop in Hf. destruct Hf as [Hf Hb].
+        apply andb_prop in Hf. destruct Hf as [Hf Ht]. apply andb_prop in Hf. destruct Hf as [Hp He].
+        apply negb_true_iff in Hn. apply negb_true_iff in Hb. apply negb_true_iff in Ht. apply negb_true_iff in He.
+        unfold is_envelope in He.
+        destruct (rq_query rq) as [l|]; [|eexists; reflexivity].
+        destruct (parse_pairs svc_parameter_types l l []) as [m0|e|w0|] eqn:Ep.
+        * rewrite He, Hp. destruct (bt_text (rq_body rq)) as [|c s]; [discriminate|].
+          rewrite Hb, Hn. destruct (bt_form (rq_body rq)) as [fl|]; [|discriminate].
+          destruct (parse_pairs_empty_typed fl fl (ainsert "uri" (JStr (rq_path rq)) m0) H) as [e ->]. eexists; reflexivity.
+        * eexists; reflexivity.
+        * exfalso. exact (parse_pairs_no_panic _ _ _ _ Ep).
+        * exfalso. exact (parse_pairs_no_oof _ _ _ Ep). }
+  destruct G as [e ->]. eexists; reflexivity.
 Qed.
 
 (** * Counterexamples (findings) and examples *)
 
-Lemma empty_body_panics_counterexample : empty_body_panics_counterexample_statement.
-Proof. split; [vm_compute; reflexivity|eexists; vm_compute; reflexivity]. Qed.
+Lemma empty_body_is_400 : empty_body_is_400_statement.
+Proof. split; vm_compute; reflexivity. Qed.
 
-Lemma nonstring_uri_panics_counterexample : nonstring_uri_panics_counterexample_statement.
-Proof. repeat split; try (vm_compute; reflexivity); eexists; vm_compute; reflexivity. Qed.
+Lemma nonstring_uri_is_error : nonstring_uri_is_error_statement.
+Proof. repeat split; vm_compute; reflexivity. Qed.
 
 Lemma envelope_nonstring_uri_is_400 : envelope_nonstring_uri_is_400_statement.
 Proof. vm_compute. reflexivity. Qed.
 
-Lemma empty_typed_param_panics_counterexample : empty_typed_param_panics_counterexample_statement.
-Proof. split; [vm_compute; reflexivity|eexists; vm_compute; reflexivity]. Qed.
+Lemma empty_typed_param_is_400 : empty_typed_param_is_400_statement.
+Proof. split; vm_compute; reflexivity. Qed.
 
 Lemma composite_swallows_errors_counterexample : composite_swallows_errors_counterexample_statement.
 Proof. split; vm_compute; reflexivity. Qed.
@@ -1386,7 +1273,7 @@ Proof. vm_compute. reflexivity. Qed.
 
 Lemma empty_form_counterexample : empty_form_counterexample_statement.
 Proof.
-  intros P HP. eexists. unfold serve, get_http_request, render.
+  intros P HP. unfold serve, get_http_request, render.
   cbn [e_kind e_prefix e_yaml_params vary lr_uri lr_params rq_path rq_query rq_method rq_body is_post parse_pairs
        pairs_of map form_body bt_text].
   rewrite HP.
